@@ -198,3 +198,80 @@ func ruleR1_8(w *World, r *Report) {
 		}
 	}
 }
+
+// R1.9: the decision function says "every variable is bound" only after it found the decision queue empty.
+//
+// The search loops turn that answer into Sat. Every unbound variable is in the queue (R14.1 (iii) rebuilds it after
+// retractions), so an empty queue is what proves that nothing is left to decide; any other shortcut (trail length,
+// counters) is not: the trail can hold the same unit twice.
+func ruleR1_9(w *World, r *Report) {
+	r.Rule("R1.9", "the function that picks the next decision literal returns `no variable left` (-1) only on paths where its last test of the decision queue found it empty", 1)
+	n := 0
+	for _, fn := range w.Fns {
+		if w.PkgName(fn) != "solver" || fn.Signature.Recv() == nil || fn.Signature.Params().Len() != 0 ||
+			fn.Signature.Results().Len() != 1 || typeShort(fn.Signature.Results().At(0).Type()) != "solver.Lit" ||
+			typeShort(fn.Signature.Recv().Type()) != "*solver.Solver" || len(fn.Blocks) == 0 {
+			continue
+		}
+		// consumes the queue?
+		var emptyCalls []*ssa.Call
+		consumes := false
+		for _, ci := range callsIn(fn) {
+			c, ok := ci.(*ssa.Call)
+			if !ok {
+				continue
+			}
+			for _, callee := range w.Callees[c] {
+				name := w.FuncName(callee)
+				if strings.HasPrefix(name, "(*solver.queue).") {
+					consumes = true
+					if typeShort(c.Type()) == "bool" {
+						emptyCalls = append(emptyCalls, c)
+					}
+				}
+			}
+		}
+		if !consumes {
+			continue
+		}
+		n++
+		key := w.FuncName(fn) + " reports exhaustion only on an empty queue"
+		var bad []string
+		nRet := 0
+		_, trunc := exploreEdges(fn.Blocks[0], &pstate{phi: map[*ssa.Phi]ssa.Value{}, facts: map[string]string{}}, nil,
+			func(ins ssa.Instruction, st *pstate) {
+				ret, ok := ins.(*ssa.Return)
+				if !ok || len(ret.Results) != 1 {
+					return
+				}
+				v := st.resolve(ret.Results[0])
+				if cv, isConv := v.(*ssa.Convert); isConv {
+					v = st.resolve(cv.X)
+				}
+				k, isK := constInt(v)
+				if !isK || k != -1 {
+					return
+				}
+				nRet++
+				for _, ec := range emptyCalls {
+					if st.facts["cond:"+st.vkey(ec)] == "=true" {
+						return
+					}
+				}
+				bad = append(bad, w.InstrPos(ret))
+			}, nil)
+		switch {
+		case trunc:
+			r.Unk("R1.9", key, w.Pos(fn.Pos()), "state space too large")
+		case len(bad) > 0:
+			r.Bad("R1.9", key, w.Pos(fn.Pos()), "`no variable left` can be returned at "+strings.Join(dedupe(bad), ", ")+" on a path where the decision queue was not found empty: the search then answers Sat although variables (and clauses over them) are still undecided")
+		case nRet == 0:
+			r.Unk("R1.9", key, w.Pos(fn.Pos()), "no path returns the `no variable left` value -1")
+		default:
+			r.OK("R1.9", key, w.Pos(fn.Pos()), fmt.Sprintf("%d exhaustion path(s), each after an empty-queue test", nRet))
+		}
+	}
+	if n == 0 {
+		r.Unk("R1.9", "decision function", "-", "no parameterless method of Solver returning a Lit and consuming the decision queue")
+	}
+}
